@@ -11,6 +11,7 @@ From Coq Require Import List NArith ZArith Bool.
 Import ListNotations.
 Require Import Base.Wire Base.PyStr.
 Require C03.Model.
+Require gen.T04.
 Open Scope N_scope.
 
 Definition LF : N := 10.
@@ -398,6 +399,248 @@ Definition step (timeout now : Z) (s : st) (o : op) : st * res N :=
   | OClear id => let '(s', r) := opClearAuth s id in (s', unit_res r)
   end.
 
+(* ---- the User plugin commands that edit hostmasks, logins and names ----
+   (plugins/User/plugin.py: hostmask add/remove, identify, unidentify,
+   changename, register).  [P] is msg.prefix.  Passwords, the owner capability
+   and the pure syntax checks are inputs (oracle); which except clause catches
+   what around users.setUser comes from the regenerated table gen.T04. *)
+Record oracle := Oracle {
+  o_pw : bool;        (* user.checkPassword(password) *)
+  o_owner : bool;     (* the caller has the owner capability *)
+  o_shape : bool;     (* ircutils.isUserHostmask(hostmask) *)
+  o_long : bool;      (* len(unWildcardHostmask(hostmask)) >= 3 *)
+  o_name : bool       (* _checkName accepts the name *)
+}.
+
+Inductive cmd :=
+| CAdd (name mask : str)
+| CRemove (name mask : str)
+| CIdentify (name : str)
+| CUnidentify
+| CChangename (name newname : str)
+| CRegister (name : str).
+
+(* state, "The operation succeeded", a lookup ran the Multiple-matches branch,
+   users.setUser (or the edit just before it) raised *)
+Record outcome := Out { r_st : st; r_ok : bool; r_amb : bool; r_set : bool }.
+
+(* `except h:` catches e (DuplicateHostmask is a ValueError) *)
+Definition catches (h e : exn) : bool :=
+  exn_eqb h e || (exn_eqb h ValueError && exn_eqb e DuplicateHostmask).
+Fixpoint first_handler (hs : list (exn * bool)) (e : exn) : option bool :=
+  match hs with
+  | [] => None
+  | (h, rb) :: r => if catches h e then Some rb else first_handler r e
+  end.
+
+Definition ambiguous (timeout now : Z) (s : st) (h : str) : bool :=
+  Nat.ltb 1 (length (recognisers timeout now s h)).
+Definition lookup (timeout now : Z) (s : st) (h : str) : st * res N * bool :=
+  let '(s', r) := getUserId timeout now s h in
+  (s', r, match r with Ok _ => false | Raise _ => ambiguous timeout now s h end).
+
+Definition store (s : st) (id : N) (u : user) : st := with_users s (uset id u (s_users s)).
+Definition set_masks (u : user) (ms : list str) : user := User (u_name u) ms (u_auth u) (u_secure u).
+Definition set_name (u : user) (n : str) : user := User n (u_masks u) (u_auth u) (u_secure u).
+Definition iset_add (x : str) (l : list str) : list str := if existsb (ieq x) l then l else l ++ [x].
+
+(* the otherUser converter on a plain name: users.getUser(name) *)
+Definition resolve (s : st) (name : str) : st * option (N * user) :=
+  let '(s', r) := getUserIdByName s name in
+  match r with
+  | Ok id => (s', match uget id (s_users s') with Some u => Some (id, u) | None => None end)
+  | Raise _ => (s', None)
+  end.
+
+(* `not user.checkPassword(pw) and not user.checkHostmask(msg.prefix) and not owner` is false *)
+Definition authorised (timeout now : Z) (o : oracle) (s : st) (uid : N) (u : user) (P : str) : st * bool :=
+  if o_pw o then (s, true)
+  else let '(u1, x) := checkHostmask false timeout now u P true in
+       (store s uid u1, truthy x || o_owner o).
+
+Definition ALL : str := [97; 108; 108].
+
+(* hostmask add, up to the edit: lookups and refusals that touch nothing *)
+Inductive prep := PErr (s : st) (amb : bool) | PGo (s : st) (amb : bool) (uid : N) (u : user).
+
+Definition add_prepare (timeout now : Z) (o : oracle) (s : st) (P name mask : str) : prep :=
+  let '(s1, _, a0) := lookup timeout now s P in           (* dispatcher: checkIgnored, capability checks *)
+  let '(s2, tgt) := resolve s1 name in
+  match tgt with
+  | None => PErr s2 a0
+  | Some (uid, _) =>
+    if negb (o_shape o) then PErr s2 a0 else
+    let '(s3, r3, a3) := lookup timeout now s2 mask in     (* otherId = ircdb.users.getUserId(hostmask) *)
+    let amb := a0 || a3 in
+    let continue :=
+      match uget uid (s_users s3) with
+      | None => PErr s3 amb
+      | Some u =>
+        let '(s4, ok) := authorised timeout now o s3 uid u P in
+        if negb ok then PErr s4 amb else
+        if negb (o_long o) then PErr s4 amb else               (* user.addHostmask: ValueError *)
+        match uget uid (s_users s4) with
+        | None => PErr s4 amb
+        | Some u1 => PGo s4 amb uid u1
+        end
+      end in
+    match r3 with
+    | Ok other => if N.eqb other uid then continue else PErr s3 amb
+    | Raise KeyError => continue
+    | Raise _ => PErr s3 amb
+    end
+  end.
+
+(* user.addHostmask(hostmask) on the live account, users.setUser(user), and the
+   except clauses around it (gen.T04.HM_ADD_HANDLERS): (state, succeeded, setUser raised) *)
+Definition add_commit (timeout now : Z) (s4 : st) (uid : N) (u1 : user) (mask : str) : st * bool * bool :=
+  let u2 := set_masks u1 (iset_add mask (u_masks u1)) in
+  let '(s6, r6) := setUser timeout now (store s4 uid u2) uid u2 in
+  match r6 with
+  | Ok _ => (s6, true, false)
+  | Raise e =>
+      match first_handler gen.T04.HM_ADD_HANDLERS e with
+      | Some true =>                                  (* user.removeHostmask(hostmask) *)
+          match uget uid (s_users s6) with
+          | Some u6 =>
+              match iset_remove mask (u_masks u6) with
+              | Ok ms => (store s6 uid (set_masks u6 ms), false, true)
+              | Raise _ => (s6, false, true)
+              end
+          | None => (s6, false, true)
+          end
+      | _ => (s6, false, true)
+      end
+  end.
+
+Definition cmd_add (timeout now : Z) (o : oracle) (s : st) (P name mask : str) : outcome :=
+  match add_prepare timeout now o s P name mask with
+  | PErr s' amb => Out s' false amb false
+  | PGo s4 amb uid u1 =>
+      let '(s6, ok, raised) := add_commit timeout now s4 uid u1 mask in
+      Out s6 ok amb raised
+  end.
+
+Definition cmd_remove (timeout now : Z) (o : oracle) (s : st) (P name mask : str) : outcome :=
+  let '(s1, _, a0) := lookup timeout now s P in
+  let '(s2, tgt) := resolve s1 name in
+  match tgt with
+  | None => Out s2 false a0 false
+  | Some (uid, u) =>
+    let '(s3, ok) := authorised timeout now o s2 uid u P in
+    if negb ok then Out s3 false a0 false else
+    match uget uid (s_users s3) with
+    | None => Out s3 false a0 false
+    | Some u1 =>
+      match (if seq_eqb mask ALL then Ok [] else iset_remove mask (u_masks u1)) with
+      | Raise _ => Out s3 false a0 false
+      | Ok ms =>
+          let u2 := set_masks u1 ms in
+          let '(s4, r4) := setUser timeout now (store s3 uid u2) uid u2 in
+          match r4 with Ok _ => Out s4 true a0 false | Raise _ => Out s4 false a0 true end
+      end
+    end
+  end.
+
+Definition cmd_identify (timeout now : Z) (o : oracle) (s : st) (P name : str) : outcome :=
+  let '(s1, _, a0) := lookup timeout now s P in
+  let '(s2, tgt) := resolve s1 name in
+  match tgt with
+  | None => Out s2 false a0 false
+  | Some (uid, u) =>
+    if o_pw o then
+      match addAuth now u P with
+      | Raise _ => Out s2 false a0 false
+      | Ok u' =>
+          let '(s3, r3) := setUser timeout now (store s2 uid u') uid u' in
+          match r3 with
+          | Ok _ => Out s3 true a0 false
+          | Raise e => match first_handler gen.T04.IDENTIFY_HANDLERS e with
+                       | Some _ => Out s3 false a0 true
+                       | None => Out s3 false a0 true
+                       end
+          end
+      end
+    else Out s2 false a0 false
+  end.
+
+Definition cmd_unidentify (timeout now : Z) (s : st) (P : str) : outcome :=
+  let '(s1, r1, a0) := lookup timeout now s P in
+  match r1 with
+  | Raise _ => Out s1 false a0 false
+  | Ok uid =>
+    let '(s2, r2) := opClearAuth s1 uid in
+    match r2 with
+    | Raise _ => Out s2 false a0 false                   (* opClearAuth leaves the state alone when it raises *)
+    | Ok _ =>
+        match uget uid (s_users s2) with
+        | Some u =>
+            let '(s3, r3) := setUser timeout now s2 uid u in
+            match r3 with Ok _ => Out s3 true a0 false | Raise _ => Out s3 false a0 true end
+        | None => Out s2 false a0 true
+        end
+    end
+  end.
+
+Definition cmd_changename (timeout now : Z) (o : oracle) (s : st) (P name newname : str) : outcome :=
+  let '(s1, _, a0) := lookup timeout now s P in
+  let '(s2, tgt) := resolve s1 name in
+  match tgt with
+  | None => Out s2 false a0 false
+  | Some (uid, u) =>
+    let '(s3, r3) := getUserIdByName s2 newname in
+    match r3 with
+    | Ok _ => Out s3 false a0 false
+    | Raise _ =>
+      if negb (o_name o) then Out s3 false a0 false else
+      (* user.checkHostmask(msg.prefix) or user.checkPassword(password) *)
+      let '(u1, x) := checkHostmask false timeout now u P true in
+      let s4 := store s3 uid u1 in
+      if truthy x || o_pw o then
+        let u2 := set_name u1 newname in
+        let '(s5, r5) := setUser timeout now (store s4 uid u2) uid u2 in
+        match r5 with Ok _ => Out s5 true a0 false | Raise _ => Out s5 false a0 true end
+      else Out s4 false a0 false
+    end
+  end.
+
+Definition cmd_register (timeout now : Z) (o : oracle) (s : st) (P name : str) : outcome :=
+  let '(s1, r1, a0) := lookup timeout now s P in
+  let '(s2, rn) := getUserIdByName s1 name in
+  match rn with
+  | Ok _ => Out s2 false a0 false
+  | Raise _ =>
+    if negb (o_name o) then Out s2 false a0 false else
+    let go (addmask : bool) :=
+      let '(s3, id) := newUser s2 in
+      if addmask && negb (o_long o) then Out (store s3 id (User name [] [] false)) false a0 true
+      else
+        let u := User name (if addmask then [P] else []) [] false in
+        let '(s4, r4) := setUser timeout now (store s3 id u) id u in
+        match r4 with Ok _ => Out s4 true a0 false | Raise _ => Out s4 false a0 true end in
+    match r1 with
+    | Ok _ => if o_owner o then go false else Out s2 false a0 false
+    | Raise KeyError => go true
+    | Raise _ => Out s2 false a0 false
+    end
+  end.
+
+Definition cmd_body (timeout now : Z) (o : oracle) (s : st) (P : str) (c : cmd) : outcome :=
+  match c with
+  | CAdd name mask => cmd_add timeout now o s P name mask
+  | CRemove name mask => cmd_remove timeout now o s P name mask
+  | CIdentify name => cmd_identify timeout now o s P name
+  | CUnidentify => cmd_unidentify timeout now s P
+  | CChangename name newname => cmd_changename timeout now o s P name newname
+  | CRegister name => cmd_register timeout now o s P name
+  end.
+
+(* sending the reply looks the sender up once more (reply options per user) *)
+Definition run_cmd (timeout now : Z) (o : oracle) (s : st) (P : str) (c : cmd) : outcome :=
+  let out := cmd_body timeout now o s P c in
+  let '(s', _, a) := lookup timeout now (r_st out) P in
+  Out s' (r_ok out) (r_amb out || a) (r_set out).
+
 (* ---- wire ---- *)
 Definition gAuth (v : value) : list (Z * str) := map (fun e => (gZ (nth_v 0 e), gS (nth_v 1 e))) (gL v).
 Definition gUser (v : value) : user :=
@@ -429,10 +672,24 @@ Definition gOp (v : value) : op :=
   | _ => OClear (gN a)
   end.
 
+Definition gOracle (v : value) : oracle :=
+  Oracle (gB (nth_v 0 v)) (gB (nth_v 1 v)) (gB (nth_v 2 v)) (gB (nth_v 3 v)) (gB (nth_v 4 v)).
+Definition gCmd (v : value) : cmd :=
+  let a := gS (nth_v 1 v) in let b := gS (nth_v 2 v) in
+  match gN (nth_v 0 v) with
+  | 0 => CAdd a b
+  | 1 => CRemove a b
+  | 2 => CIdentify a
+  | 3 => CUnidentify
+  | 4 => CChangename a b
+  | _ => CRegister a
+  end.
+
 (* run (kind payload):
    0: (pattern hostmask) -> bool                       glob matcher
    1: (timeout now state op) -> (state' result)        one step
-   2: (timeout now state hostmask) -> list of ids      cache-free recognisers *)
+   2: (timeout now state hostmask) -> list of ids      cache-free recognisers
+   3: (timeout now state prefix cmd oracle) -> (state' ok ambiguous setuser-raised)   one User plugin command *)
 Definition run (v : value) : value :=
   let p := nth_v 1 v in
   match gN (nth_v 0 v) with
@@ -440,5 +697,7 @@ Definition run (v : value) : value :=
   | 1 => let '(s', r) := step (gZ (nth_v 0 p)) (gZ (nth_v 1 p)) (gSt (nth_v 2 p)) (gOp (nth_v 3 p)) in
          L [vSt s'; vR vN r]
   | 2 => L (map vN (recognisers (gZ (nth_v 0 p)) (gZ (nth_v 1 p)) (gSt (nth_v 2 p)) (gS (nth_v 3 p))))
+  | 3 => let out := run_cmd (gZ (nth_v 0 p)) (gZ (nth_v 1 p)) (gOracle (nth_v 5 p)) (gSt (nth_v 2 p)) (gS (nth_v 3 p)) (gCmd (nth_v 4 p)) in
+         L [vSt (r_st out); vB (r_ok out); vB (r_amb out); vB (r_set out)]
   | _ => L []
   end.
